@@ -611,7 +611,7 @@ impl DefaultFunction {
             DefaultFunction::RotateByteString | DefaultFunction::ShiftByteString => {
                 if let (Term::Constant(c1), Term::Constant(c2)) = (&arg_stack[0], &arg_stack[1]) {
                     matches!(c1.as_ref(), Constant::ByteString(..))
-                        && matches!(c2.as_ref(), Constant::Integer(..))
+                        && matches!(c2.as_ref(), Constant::Integer(i) if i64::try_from(i).is_ok())
                 } else {
                     false
                 }
